@@ -263,6 +263,13 @@ def gen_decls(rng, cfg):
         nm = '%s_CONST%d' % (spx.upper(), i)
         lines.append('#define %s %d' % (nm, i))
         decls.append({'c': nm, 'class': 'constant'})
+    # constants whose names are not all upper case (keysym style)
+    for tail in rng.sample(['KEY_a', 'KEY_Escape', 'Mixed_Case_Constant', 'x', 'KEY_0'], rng.choice([0, 1, 2])):
+        spx = rng.choice(sp)
+        nm = '%s_%s' % (spx.upper(), tail)
+        if not any(d['c'] == nm for d in decls):
+            lines.append('#define %s 7' % nm)
+            decls.append({'c': nm, 'class': 'constant'})
     for nm in ('_%s_HIDDEN_CONST' % sp[0].upper(), 'XYZ_FOREIGN_CONST'):
         if rng.random() < 0.4:
             lines.append('#define %s 1' % nm)
